@@ -113,6 +113,8 @@ def canon_real(v):
         return ('range', v.start, v.stop, v.step)
     if isinstance(v, bitstring.Bits):
         n = type(v).__name__
+        if not hasattr(v, '_bitstore'):
+            return (n, None)             # an object under construction whose initialiser raised (as in canon_model)
         s = v._bitstore.slice_to_bin() if len(v) else ''
         if hasattr(v, '_pos'):
             return (n, s, v._pos)
